@@ -1309,7 +1309,18 @@ def deck_stream(res, rng, quick):
             fault = c06_gen.break_deck(gen_rng if forced_fault else rng, deck,
                                        meta, forced_fault)
         text = deckmod.render(deck)
-        args = deckmod.lattice_args(deck)
+        # conversion options: pot_fill builds the geometry of a filled element
+        # differently under the inlining options (the filler's tree is inlined
+        # AFTER its fill transformation / element translation); the corpus
+        # cycles through all of them, half of the random decks draw one
+        if k < len(corpus):
+            opts = OPTION_SETS[k % len(OPTION_SETS)]
+        elif broken:
+            opts = []
+        else:
+            opts = rng.choice(OPTION_SETS) if rng.random() < 0.5 else []
+        args = deckmod.lattice_args(deck) + opts
+        res.count('options:' + (' '.join(opts) or 'default'))
         # the corpus, 40 random decks and every broken deck run under the
         # line-coverage tracer (tracing every conversion would double the time)
         conv, records = run_deck(deck, args,
@@ -1425,6 +1436,10 @@ def deck_stream(res, rng, quick):
               lambda m: f'fault={m["fault"]} out={m["out"]} deck=\n{m["deck"]}')
     return bad
 
+
+OPTION_SETS = [['--always-inline-filling'], [],
+               ['--always-inline-filling', '--always-inline-filled'],
+               ['--always-inline-filled'], ['--max-inline-score', '0']]
 
 BROKEN_CORPUS = ['padding_nonzero', 'too_few_ranges', 'range_in_padding',
                  'shifted_ranges', 'too_many_ranges', 'same_plane',
